@@ -304,11 +304,10 @@ def translate_b2c(tree):
     text = "fa_to_tuple (e_consts st)"
     for k, stp in reversed(list(enumerate(steps))):
         text = "do st <- %s st; %s" % (stp, text)
-    return ("Section B2C.\n  Context {C : Type} (keq : C -> C -> bool) (is_str : C -> bool) (none_c : C) (str_c : str -> C).\n"
-            "  Definition blocks_to_constants (blocks : list (list (instr_ C))) (additional_args : list (arg_ C)) (block_type : option function) : res (list C) :=\n"
+    return ("  Definition blocks_to_constants (blocks : list (list (instr_ C))) (additional_args : list (arg_ C)) (block_type : option function) : res (list C) :=\n"
             "    let step := fun (a : arg_ C) (st : encstate C) => match a with AConst _ _ => do r <- PCD.Gen.SrcFromArg.from_arg keq is_str none_c a block_type [] st; OK (snd r) | _ => OK st end in\n"
             "    do constants <- %s;\n    let st := mkEnc (@fromargs_empty str) (@fromargs_empty str) (@fromargs_empty str) constants in\n    %s.\n" % (doc, text)
-            + translate_enc_init(tree) + translate_dec_init(tree) + translate_dec_epilogue(tree) + translate_first_pass(tree) + "End B2C.\n")
+            )
 
 
 def translate_iter(tree):
@@ -350,29 +349,48 @@ HEADER = ("(* generated by harness/translate_iter.py from /repo/code_data/_block
           "From PCD Require Gen.SrcFromArg Gen.SrcTables.\nOpen Scope Z_scope.\n\n")
 
 
+SECTION_OPEN = "Section B2C.\n  Context {C : Type} (keq : C -> C -> bool) (is_str : C -> bool) (none_c : C) (str_c : str -> C).\n"
+# (name, translator, which tree, inside the section)
+ITEMS = [("blocks_to_constants", translate_b2c, 0, True), ("enc_init", translate_enc_init, 0, True), ("dec_init", translate_dec_init, 0, True),
+         ("additional_of", translate_dec_epilogue, 0, True), ("first_pass", translate_first_pass, 0, True), ("iteration", translate_iter, 1, False)]
+
+
 def generate(repo, outpath, fallback_dir, write_fallback=False):
+    """each item declines on its own: the others stay tied to the source by proof"""
     import os
     from common import write_if_changed
     notes = {}
-    fb = os.path.join(fallback_dir, "SrcIter.v")
-    try:
-        with open(os.path.join(repo, "code_data", "_blocks.py")) as f:
-            t1 = ast.parse(f.read())
-        with open(os.path.join(repo, "code_data", "__init__.py")) as f:
-            t2 = ast.parse(f.read())
-        text = translate_b2c(t1) + translate_iter(t2)
-        notes["iter"] = "translated"
-        flag = "true"
-        if write_fallback:
-            with open(fb, "w") as f:
-                f.write(text)
-    except (Decline, OSError, SyntaxError, IndexError, KeyError, AttributeError, ValueError) as e:
-        notes["iter"] = "declined: %s" % e
-        with open(fb) as f:
-            text = ("(* declined (%s): reference translation of the pinned source; tied by correspondence only *)\n"
-                    % str(e).replace("*)", "* )")[:100]) + f.read()
-        flag = "false"
-    notes["changed"] = write_if_changed(outpath, HEADER + text + "Definition iter_translated := %s.\n" % flag)
+    trees = [None, None]
+    for k, name in enumerate(("_blocks.py", "__init__.py")):
+        try:
+            with open(os.path.join(repo, "code_data", name)) as f:
+                trees[k] = ast.parse(f.read())
+        except (OSError, SyntaxError) as e:
+            notes["parse " + name] = "declined: %s" % e
+    out = [HEADER, SECTION_OPEN]
+    closed = False
+    all_ok = True
+    for name, fn, which, inside in ITEMS:
+        if not inside and not closed:
+            out.append("End B2C.\n")
+            closed = True
+        fb = os.path.join(fallback_dir, "SrcIter_%s.v" % name)
+        try:
+            if trees[which] is None:
+                raise Decline("source unreadable")
+            text = fn(trees[which])
+            notes[name] = "translated"
+            if write_fallback:
+                with open(fb, "w") as f:
+                    f.write(text)
+        except (Decline, IndexError, KeyError, AttributeError, ValueError) as e:
+            notes[name] = "declined: %s" % e
+            all_ok = False
+            with open(fb) as f:
+                text = ("(* declined (%s): reference translation of the pinned source; tied by correspondence only *)\n"
+                        % str(e).replace("*)", "* )")[:100]) + f.read()
+        out.append(text)
+    notes["changed"] = write_if_changed(outpath, "".join(out) + "Definition iter_translated := %s.\n" % ("true" if all_ok else "false"))
     return notes
 
 
